@@ -30,27 +30,27 @@ macro_rules
       | (refine Lin.weaken (d := 0) (c := 0) (d' := 1) (c' := 0) ?_ (Nat.zero_le _) (Nat.le_refl _); lin)
       | (split <;> lin))
 
-theorem lin_decodeApiVersions : Lin 0 0 decodeApiVersions := by unfold decodeApiVersions; lin
-theorem lin_decodeProduce (v : Int) : Lin 0 0 (decodeProduce v) := by
-  unfold decodeProduce produceTopics; lin
-theorem lin_fetchHead (v : Int) : Lin 0 0 (fetchHead v) := by unfold fetchHead; lin
-theorem lin_decodeFetch (v : Int) : Lin 0 0 (decodeFetch v) := by
+theorem lin_decodeApiVersions [HasMeasure] : Lin 0 0 decodeApiVersions := by unfold decodeApiVersions apiVersionEntry; lin
+theorem lin_decodeProduce [HasMeasure] (v : Int) : Lin 0 0 (decodeProduce v) := by
+  unfold decodeProduce produceTopics topicsLoop topicLoop producePartition; lin
+theorem lin_fetchHead [HasMeasure] (v : Int) : Lin 0 0 (fetchHead v) := by unfold fetchHead; lin
+theorem lin_decodeFetch [HasMeasure] (v : Int) : Lin 0 0 (decodeFetch v) := by
   unfold decodeFetch fetchHead fetchTopics fetchTopic fetchPartition; lin
-theorem lin_decodeOffset : Lin 0 0 decodeOffset := by unfold decodeOffset; lin
-theorem lin_decodeMetadata : Lin 0 0 decodeMetadata := by unfold decodeMetadata; lin
-theorem lin_decodeConsumerMetadata : Lin 0 0 decodeConsumerMetadata := by
+theorem lin_decodeOffset [HasMeasure] : Lin 0 0 decodeOffset := by unfold decodeOffset topicsLoop topicLoop offsetPartition offsetEntry; lin
+theorem lin_decodeMetadata [HasMeasure] : Lin 0 0 decodeMetadata := by unfold decodeMetadata metadataBody metadataTopic metadataPartition metadataBroker; lin
+theorem lin_decodeConsumerMetadata [HasMeasure] : Lin 0 0 decodeConsumerMetadata := by
   unfold decodeConsumerMetadata; lin
-theorem lin_decodeOffsetCommit : Lin 0 0 decodeOffsetCommit := by unfold decodeOffsetCommit; lin
-theorem lin_decodeOffsetFetch : Lin 0 0 decodeOffsetFetch := by unfold decodeOffsetFetch; lin
-theorem lin_decodeJoinGroupProtocolMetadata : Lin 0 0 decodeJoinGroupProtocolMetadata := by
-  unfold decodeJoinGroupProtocolMetadata; lin
-theorem lin_decodeJoinGroup : Lin 0 0 decodeJoinGroup := by unfold decodeJoinGroup; lin
-theorem lin_decodeLeaveGroup : Lin 0 0 decodeLeaveGroup := by
+theorem lin_decodeOffsetCommit [HasMeasure] : Lin 0 0 decodeOffsetCommit := by unfold decodeOffsetCommit topicsLoop topicLoop offsetCommitPartition; lin
+theorem lin_decodeOffsetFetch [HasMeasure] : Lin 0 0 decodeOffsetFetch := by unfold decodeOffsetFetch topicsLoop topicLoop offsetFetchPartition; lin
+theorem lin_decodeJoinGroupProtocolMetadata [HasMeasure] : Lin 0 0 decodeJoinGroupProtocolMetadata := by
+  unfold decodeJoinGroupProtocolMetadata subscriptionEntry; lin
+theorem lin_decodeJoinGroup [HasMeasure] : Lin 0 0 decodeJoinGroup := by unfold decodeJoinGroup joinGroupMember; lin
+theorem lin_decodeLeaveGroup [HasMeasure] : Lin 0 0 decodeLeaveGroup := by
   unfold decodeLeaveGroup decodeErrorOnly; lin
-theorem lin_decodeHeartbeat : Lin 0 0 decodeHeartbeat := by
+theorem lin_decodeHeartbeat [HasMeasure] : Lin 0 0 decodeHeartbeat := by
   unfold decodeHeartbeat decodeErrorOnly; lin
-theorem lin_decodeSyncGroup : Lin 0 0 decodeSyncGroup := by unfold decodeSyncGroup; lin
-theorem lin_decodeSyncGroupMemberAssignment : Lin 0 0 decodeSyncGroupMemberAssignment := by
-  unfold decodeSyncGroupMemberAssignment; lin
+theorem lin_decodeSyncGroup [HasMeasure] : Lin 0 0 decodeSyncGroup := by unfold decodeSyncGroup; lin
+theorem lin_decodeSyncGroupMemberAssignment [HasMeasure] : Lin 0 0 decodeSyncGroupMemberAssignment := by
+  unfold decodeSyncGroupMemberAssignment assignmentBody assignmentTopic; lin
 
 end Afkak.WireCost
